@@ -273,6 +273,17 @@ MUTANTS = [
      "        if self._closed:\n            return\n        self._closed = True\n        self.active = False", "        self._closed = True\n        self.active = False\n        self.listener.getsockname()"),
     ("c17-listener-left-open", "C17", "rpyc/utils/server.py",
      "        self.listener.close()\n        self.logger.info(\"listener closed\")", "        self.logger.info(\"listener closed\")"),
+    # ---- C18
+    ("c18-pruning-inverted", "C18", "rpyc/utils/registry.py", "            if t < oldest:", "            if t > oldest:"),
+    ("c18-query-no-upper", "C18", "rpyc/utils/registry.py", "        name = name.upper()\n        self.logger.debug(\"querying for %r\", name)", "        self.logger.debug(\"querying for %r\", name)"),
+    ("c18-no-sort", "C18", "rpyc/utils/registry.py", "        all_servers = sorted(self.services[name].items(), key=lambda x: x[1])", "        all_servers = sorted(self.services[name].items(), key=lambda x: repr(x[0]))"),
+    ("c18-added-every-time", "C18", "rpyc/utils/registry.py", "        if is_new:\n            try:\n                self.on_service_added(name, addrinfo)", "        if True:\n            try:\n                self.on_service_added(name, addrinfo)"),
+    ("c18-no-magic-check", "C18", "rpyc/utils/registry.py", "            if magic != \"RPYC\":\n                self.logger.warn(\"invalid magic: %r\", magic)\n                continue\n", ""),
+    ("c18-command-unguarded", "C18", "rpyc/utils/registry.py", " if isinstance(cmd, str) else None", ""),
+    ("c18-unregister-all-names", "C18", "rpyc/utils/registry.py", "            if (host, port) in self.services[name]:\n                self._remove_service(name, (host, port))", "            self._remove_service(name, (host, port))"),
+    ("c18-tcp-no-timeout", "C18", "rpyc/utils/registry.py", "            sock2.settimeout(self.TIMEOUT)\n", ""),
+    ("c18-refresh-not-updated", "C18", "rpyc/utils/registry.py", "        is_new = addrinfo not in self.services[name]\n        self.services[name][addrinfo] = time.time()", "        is_new = addrinfo not in self.services[name]\n        if is_new:\n            self.services[name][addrinfo] = time.time()"),
+    ("c18-register-uses-given-host", "C18", "rpyc/utils/registry.py", "                reply = cmdfunc(addrinfo[0], *args)", "                reply = cmdfunc(args[0] if cmd.lower() == 'query' and False else (addrinfo[0] if cmd.lower() != 'unregister' else '0.0.0.0'), *args)"),
     # ---- C19
     ("c19-tag-renumbered", "C19", "rpyc/core/brine.py", "TAG_SLICE = b\"\\x19\"\nTAG_FSET = b\"\\x1a\"", "TAG_SLICE = b\"\\x1a\"\nTAG_FSET = b\"\\x19\""),
     ("c19-label-renumbered", "C19", "rpyc/core/consts.py", "LABEL_LOCAL_REF = 3\nLABEL_REMOTE_REF = 4", "LABEL_LOCAL_REF = 4\nLABEL_REMOTE_REF = 3"),
